@@ -3,9 +3,9 @@ package props
 import (
 	"fmt"
 	"os"
-	"strconv"
 	"reflect"
 	"runtime/debug"
+	"strconv"
 	"strings"
 	"testing"
 	"time"
@@ -384,6 +384,7 @@ func FuzzC11(f *testing.F) {
 	for _, w := range c10Witnesses {
 		f.Add(w.Src)
 	}
+	addFixtures(f)
 	known := loadKnown("C11")
 	rec := evid.New("C11")
 	f.Fuzz(func(t *testing.T, data []byte) {
